@@ -64,6 +64,7 @@ func (dp *DataProcessor) Process() {
 			return
 		}
 
+		verifYieldPoint("cons.recv")
 		select {
 		case data, ok := <-currentDataChan:
 			if !ok {
